@@ -153,3 +153,126 @@ for _name, _fn in inspect.getmembers(PM.PluginManager, inspect.isfunction):
 for _name, _fn in inspect.getmembers(PB.Plugin, inspect.isfunction):
     if _name not in ("__init__",):
         CONTRACTS.append(_base_hook_contract(_name, _fn))
+
+
+# ------------------------------------------------------------------------------------------ configuration order
+from ariadne_codegen.plugins import explorer as EXP        # noqa: E402
+
+IS_MODULE = z3.Function("plugin_entry_is_module", V.Val, z3.BoolSort())
+MODULE_PLUGINS = z3.Function("plugins_of_module", V.Val, V.Val)       # a list of classes
+CLASS_OF = z3.Function("plugin_class_of_path", V.Val, V.Val)
+
+
+class _ExplorerStub(Contract):
+    """assumed contract: what a configuration entry denotes is importlib's / inspect's business"""
+    props = ("C15",)
+    assumed = True
+
+    def __init__(self, fn, param, term):
+        self.target = f"ariadne_codegen.plugins.explorer:{fn}"
+        self.param, self.term = param, term
+
+    def setup(self, E):
+        return [], {self.param: E.sym(self.param, Str)}
+
+    def result_term(self, A):
+        return self.term(A[self.param])
+
+    def ensures(self, A, res):
+        return {"denotation": res == self.term(A[self.param])}
+
+
+STUBS = [_ExplorerStub("is_module_str", "plugin_str", lambda s: V.VBool(IS_MODULE(s))),
+         _ExplorerStub("get_plugins_types_from_module", "module_str", lambda s: MODULE_PLUGINS(s)),
+         _ExplorerStub("get_plugin_type", "class_str", lambda s: CLASS_OF(s))]
+
+
+def _entry_classes(s):
+    return z3.If(IS_MODULE(s), V.vl(MODULE_PLUGINS(s)), V.VCons(CLASS_OF(s), V.VNil))
+
+
+plugins_in_order = z3.RecFunction("plugins_in_configuration_order", V.VL, V.VL)
+_es = z3.Const("entries", V.VL)
+z3.RecAddDefinition(plugins_in_order, [_es], z3.If(V.is_VNil(_es), V.VNil, V.vl_concat(_entry_classes(V.hd(_es)), plugins_in_order(V.tl(_es)))))
+
+
+class GetPluginsTypes(Contract):
+    """statement: `several plugins are applied to each hook in configuration order`: the plugin classes are listed in the
+    order of the configuration entries, whichever spelling (module or class path) an entry uses"""
+    props = ("C15",)
+    target = "ariadne_codegen.plugins.explorer:get_plugins_types"
+    use_at_calls = False
+    trusted = ["importlib / inspect: which classes a module string or class path denotes (uninterpreted functions of the entry)",
+               "list concatenation is associative (lemma instance supplied to the solver)"]
+
+    def setup(self, E):
+        entries = E.sym("plugins_strs", ListOf(Str, name="plugin_entries"))
+        from pyvc.shapes import Pred
+        # the module's plugin list is a list, whatever the entry
+        some = z3.Const("any_entry", V.Val)
+        E.assume(z3.ForAll([some], V.is_VList(MODULE_PLUGINS(some))))
+        return [entries], {}
+
+    @property
+    def loops(self):
+        def inv(rest, xs, st, I, env):
+            cur = V.vl(st["classes"]) if "classes" in st else V.VNil
+            rest = z3.simplify(rest)
+            if z3.is_app(rest) and rest.decl().name() == "VCons":
+                b = _entry_classes(V.hd(rest))
+                tail = plugins_in_order(V.tl(rest))
+                V.LEMMAS.append(V.vl_concat(V.vl_concat(cur, b), tail) == V.vl_concat(cur, V.vl_concat(b, tail)))
+                V.LEMMAS.append(plugins_in_order(rest) == V.vl_concat(b, tail))
+            if z3.is_app(rest) and rest.decl().name() == "VNil":
+                return cur == plugins_in_order(xs)
+            return V.vl_concat(cur, plugins_in_order(rest)) == plugins_in_order(xs)
+        return {"get_plugins_types": inv}
+
+    def ensures(self, A, res):
+        return {"classes-in-configuration-order": V.vl(res) == plugins_in_order(V.vl(A.plugins_strs))}
+
+    def replay_custom(self, inputs):
+        return replay_plugin_order(inputs)
+
+    def samples(self, tier):
+        return [dict(plugins_strs=p) for p in ([], ["pyvc_order_a.PluginA", "pyvc_order_b"], ["pyvc_order_b", "pyvc_order_a.PluginA"],
+                                                 ["pyvc_order_a.PluginA", "pyvc_order_b", "pyvc_order_a.PluginC", "pyvc_order_b"])]
+
+
+def _order_modules():
+    """two throw-away plugin modules for the native replay"""
+    import sys
+    import types
+    if "pyvc_order_a" in sys.modules:
+        return
+    a, b = types.ModuleType("pyvc_order_a"), types.ModuleType("pyvc_order_b")
+    for mod, names in ((a, ("PluginA", "PluginC")), (b, ("PluginB",))):
+        for n in names:
+            cls = type(n, (PB.Plugin,), {"__module__": mod.__name__})
+            setattr(mod, n, cls)
+        mod.__spec__ = __import__("importlib.machinery").machinery.ModuleSpec(mod.__name__, loader=None)
+        sys.modules[mod.__name__] = mod
+
+
+def replay_plugin_order(inputs):
+    _order_modules()
+    import sys
+    rep = dict(inputs={k: str(v) for k, v in inputs.items()}, failed=[], undetermined=[], pre_ok=True, outcome=None, error=None)
+    entries = [e for e in inputs.get("plugins_strs") or [] if isinstance(e, str)]
+    known = {"pyvc_order_a.PluginA": ["PluginA"], "pyvc_order_a.PluginC": ["PluginC"], "pyvc_order_b": ["PluginB"], "pyvc_order_a": ["PluginA", "PluginC"]}
+    if not all(e in known for e in entries):
+        entries = ["pyvc_order_a.PluginA", "pyvc_order_b", "pyvc_order_a.PluginC"]      # the counter-model's shape, on real plugin modules
+        rep["inputs"]["replayed_as"] = entries
+    want = [n for e in entries for n in known[e]]
+    try:
+        got = [c.__name__ for c in EXP.get_plugins_types(entries)]
+        rep["outcome"] = {"return": got}
+        if got != want:
+            rep["failed"].append("post.classes-in-configuration-order")
+    except Exception as e:      # noqa
+        rep["outcome"] = {"raise": type(e).__name__, "message": str(e)[:200]}
+        rep["failed"].append("post.classes-in-configuration-order")
+    return rep
+
+
+CONTRACTS += [GetPluginsTypes()] + STUBS
